@@ -57,8 +57,30 @@ fn deep<K: Kmer>(base: u8, nobs: usize, stranded: bool, summ: &str, label: u8) -
     if rows.is_empty() { "-".into() } else { rows.join(",") }
 }
 
+/// `deepmix <K> <n> <t> <stranded>`: one read `A^n t A^n` (count >= 1, all k-mers reported): the bucket of `A^K` receives more than
+/// 2^20 observations and holds, besides `A^K`, the handful of k-mers that cross `t`
+fn deepmix<K: Kmer>(n: usize, t: &[u8], stranded: bool) -> String {
+    let mut v = vec![0u8; n];
+    v.extend_from_slice(t);
+    v.extend(vec![0u8; n]);
+    let reads = vec![(DnaString::from_bytes(&v), Exts::empty(), 0u8)];
+    let (map, all) = filter_kmers::<K, _, _, _, _>(&reads, &Box::new(CountFilter::new(1)), stranded, true, 4);
+    let mut rows: Vec<String> = map.iter().map(|(k, e, d)| format!("{}:{:02x}:{}", kmer_digits(k), e.val, d)).collect();
+    rows.sort();
+    let all: Vec<String> = all.iter().map(|k| kmer_digits(k)).collect();
+    format!("{}|{}", if rows.is_empty() { "-".to_string() } else { rows.join(",") }, if all.is_empty() { "-".to_string() } else { all.join(",") })
+}
+
 /// `filter <K> <stranded> <reportall> <summ> <memsize> <bytesPerUnit> <sizeOfPair> <probes> <reads>`
 pub fn exec(a: &[&str]) -> String {
+    if a[0] == "deepmix" {
+        let k: usize = a[1].parse().unwrap();
+        let t = digits(a[3]);
+        let r = std::panic::catch_unwind(std::panic::AssertUnwindSafe(|| {
+            with_graph_kmer!(k, deepmix, a[2].parse().unwrap(), &t, a[4] == "1")
+        }));
+        return r.unwrap_or_else(|_| "panic".into());
+    }
     if a[0] == "deep" {
         let k: usize = a[1].parse().unwrap();
         let r = std::panic::catch_unwind(std::panic::AssertUnwindSafe(|| {
@@ -84,6 +106,11 @@ fn size_of_pair<K: Kmer>() -> usize {
 }
 
 pub fn gen(rng: &mut Rng, tier: &str) -> String {
+    if rng.chance(1, 400) {
+        // more than 2^20 observations in one bucket that holds several distinct k-mers (cheap on the crate's side; judged in closed form)
+        let t: Vec<u8> = (0..1 + rng.below(2)).map(|_| 1 + rng.below(3) as u8).collect();
+        return format!("C05 deepmix {} {} {} {}", *rng.pick(&[10usize, 12, 16, 31, 32, 48]), *rng.pick(&[524300usize, 530000, 600000]), show_digits(&t), rng.below(2));
+    }
     if rng.chance(1, 60) {
         // one k-mer observed more than 2^20 times (or around 2^16): past any batch a summarizer may work in (cheap on the crate's side)
         let nobs = if rng.chance(2, 3) { (1usize << 20) + *rng.pick(&[1usize, 1, 2, 3, 10, 4000]) } else { *rng.pick(&[65535usize, 65536, 65537, 131073]) };
